@@ -51,6 +51,8 @@ def alt_pool(rng):
         'numbc': {'type': 'numeric_bytecode', 'bytecode': {'size': 5, 'min': 0, 'max': 15}},
         'adr': {'type': 'address', 'argument': {'size': 16, 'byte_align': True}, 'bytecode': bc()},
         'curly': {'type': 'relative_address', 'use_curly_braces': True, 'argument': {'size': 8, 'byte_align': True}, 'bytecode': bc()},
+        'predec_sp': {'type': 'register', 'register': 'sp', 'bytecode': bc(), 'decorator': {'type': 'minus', 'is_prefix': True}},
+        'postinc_a': {'type': 'register', 'register': 'a', 'bytecode': bc(), 'decorator': {'type': 'plus', 'is_prefix': False}},
         'rel': {'type': 'relative_address', 'argument': {'size': 8, 'byte_align': True}, 'bytecode': bc()},
     }
     return pool
@@ -82,7 +84,10 @@ def operand_texts(rng):
         {'cls': 'word', 'w': 'one', 'e': None, 'text': 'one'},                 # a key that is not a label
         {'cls': 'num', 'e': e, 'text': str(e)},
         {'cls': 'num', 'e': LABELS[lab] + 1, 'text': f'{lab}+1', 'lab': lab, 'expr': True},
-        {'cls': 'regexpr', 'r': r, 'text': f'1+{r}'},
+        {'cls': 'dreg', 'r': r, 'dec': ('minus', True), 'text': f'-{r}'},        # a decorated register, or a negated register "value"
+        {'cls': 'dreg', 'r': r, 'dec': ('plus', False), 'text': f'{r}+'},
+        {'cls': 'regexpr', 'r': r, 'text': rng.choice([f'1+{r}', f'- {r} + 1', f'LSB({r})', f'BYTE0({r})', f'({r})', f'-({r})', f'{r}*2',
+                                                        f'BYTE1(-{r})', f'2 - -{r}', f'({r}+1)', f'lab_k+{r}'])},
         {'cls': 'curly', 'e': e, 'text': '{' + f'{sp}{e}{sp}' + '}'},
     ]
 
@@ -92,6 +97,9 @@ def accepts(name, conf, o, addr):
     t = conf['type']
     c = o['cls']
     if t == 'register':
+        dec = conf.get('decorator')
+        if dec:
+            return {'id': name} if c == 'dreg' and o['r'] == conf['register'] and o['dec'] == (dec['type'], dec['is_prefix']) else None
         return {'id': name} if c == 'reg' and o['r'] == conf['register'] else None
     if t == 'indirect_register':
         if c == 'ind' and o['r'] == conf['register']:
@@ -173,7 +181,7 @@ class C13(core.Check):
         'reject:register-inside-expression', 'reject:no-variant-takes-count', 'mnemonic:upper', 'mnemonic:mixed',
         'chosen:variant>=2', 'chosen:specific', 'expect:ACCEPT', 'expect:REJECT',
         'later-candidate-after-nonaccepting-earlier', 'amb:disallowed-pair-mirrored-is-allowed', 'amb:two-specific-entries-accept',
-        'amb:key-vs-relative-address']}
+        'amb:key-vs-relative-address', 'amb:decorated-register-vs-numeric']}
 
     def gen_isa(self, rng):
         pool = alt_pool(rng)
@@ -387,7 +395,11 @@ class C13(core.Check):
                         tags.add('amb:register-vs-numeric')
                     if o['cls'] == 'idx' and o.get('lab'):
                         tags.add('amb:indexed-vs-label-expression')
+            if kind == 'ACCEPT' and any(o['cls'] == 'dreg' for o in operands):
+                tags.add('amb:decorated-register-vs-numeric')
             if kind == 'REJECT':
+                if any(o['cls'] == 'dreg' for o in operands):
+                    tags.add('reject:register-inside-expression')
                 if any(o['cls'] == 'reg' for o in operands):
                     tags.add('reject:register-in-numeric-position')
                 if any(o['cls'] == 'regexpr' for o in operands):
